@@ -200,6 +200,15 @@ Proof.
   apply strip_trailing_seps_snoc. exact Hx.
 Qed.
 
+Lemma strip_or_self_abs_cleaned : forall p,
+  abs_cleaned p -> match strip_trailing_seps p with [] => p | q => q end = p.
+Proof.
+  intros p Hac. destruct (comps p) as [|c cs] eqn:E.
+  - pose proof (abs_cleaned_eq p Hac) as Ep. rewrite E in Ep. rewrite Ep. reflexivity.
+  - rewrite strip_trailing_seps_abs_cleaned; [| exact Hac | rewrite E; discriminate].
+    destruct p; reflexivity.
+Qed.
+
 (* ------------------------------------------------------------------ *)
 (** * A.2 [kprefixes] *)
 
@@ -1034,6 +1043,7 @@ Lemma fs_mkdir_direct : forall s p perm,
     end.
 Proof.
   intros s p perm Hd Hlen. unfold fs_mkdir.
+  rewrite (strip_or_self_abs_cleaned p (proj1 Hd)).
   rewrite (resolve_direct _ p false Hd Hlen (or_introl eq_refl)).
   destruct (st_fs s !! comps p); [reflexivity|].
   destruct (comps p); reflexivity.
@@ -1533,7 +1543,7 @@ Lemma fs_mkdirall_aux_S : forall fuel s p perm,
     match fs_stat s p with
     | Ok fi => match fi_kind fi with KDir => (Ok tt, s) | _ => (Err ENOTDIR, s) end
     | Err _ =>
-        let parent := upto_last_sep (strip_trailing_seps p) in
+        let parent := removelast (upto_last_sep (strip_trailing_seps p)) in
         let '(r, s1) :=
           match parent with
           | [] => (Ok tt, s)
@@ -1615,6 +1625,41 @@ Proof.
   - intros m' t E. norm_keys. rewrite Hn in E. discriminate E.
 Qed.
 
+(** the parent string [os.MkdirAll] recurses on (the name up to, not
+    including, the last separator) *)
+Lemma parent_string_abs_cleaned : forall p,
+  abs_cleaned p -> comps p <> [] ->
+  removelast (upto_last_sep p) =
+    match removelast (comps p) with [] => [] | k => kpath k end.
+Proof.
+  intros p Hac Hne. rewrite (upto_last_sep_abs_cleaned p Hac Hne).
+  destruct (removelast (comps p)) as [|x init] eqn:E.
+  - reflexivity.
+  - rewrite join_sep_snoc by discriminate.
+    change (sep :: join_sep (x :: init) ++ sep :: [])
+      with ((sep :: join_sep (x :: init)) ++ [sep]).
+    rewrite removelast_last. reflexivity.
+Qed.
+
+Lemma direct_parent_direct : forall f p,
+  direct f p -> comps p <> [] ->
+  direct f (kpath (removelast (comps p))) /\
+  comps (kpath (removelast (comps p))) = removelast (comps p).
+Proof.
+  intros f p Hd Hne.
+  destruct (exists_last Hne) as [init [c Ek]].
+  pose proof (comps_good p) as Hg. rewrite Ek in Hg. apply Forall_app in Hg.
+  pose proof (abs_comps_no_dotdot p (proj2 (proj1 Hd))) as Hnd. rewrite Ek in Hnd.
+  assert (Hnd' : ~ In s_dotdot init).
+  { intro H. apply Hnd. apply in_or_app. left. exact H. }
+  rewrite Ek. rewrite removelast_last.
+  pose proof (comps_kpath init (proj1 Hg) Hnd') as Ec.
+  split; [| exact Ec].
+  split; [apply kpath_abs_cleaned; [exact (proj1 Hg) | exact Hnd'] |].
+  rewrite Ec. destruct Hd as [_ Hd]. rewrite Ek in Hd. rewrite kprefixes_snoc in Hd.
+  apply Forall_app in Hd. exact (proj1 Hd).
+Qed.
+
 (** all ancestors exist: [MkdirAll] is [Mkdir] *)
 Lemma fs_mkdirall_direct_missing : forall s p perm,
   direct (st_fs s) p -> length (comps p) + 2 < walk_fuel ->
@@ -1626,15 +1671,26 @@ Proof.
     [| intros m' t E; norm_keys; rewrite Hn in E; discriminate E].
   rewrite Hn.
   rewrite (strip_trailing_seps_abs_cleaned p (proj1 Hd) Hne).
-  destruct (fs_stat_parent_string s p Hd Hlen Hne) as [m Hst].
   cbv zeta.
-  pose proof (upto_last_sep_abs_cleaned p (proj1 Hd) Hne) as Eu.
-  destruct (upto_last_sep p) as [|x q] eqn:Eq; [discriminate Eu|].
+  rewrite (parent_string_abs_cleaned p (proj1 Hd) Hne).
+  pose proof (direct_parent_dir _ p Hd Hne) as [m Hm].
+  destruct (direct_parent_direct _ p Hd Hne) as [Hdp Ecp].
   pose proof (abs_cleaned_nonempty p (proj1 Hd)) as Hpne.
   destruct p as [|y p']; [contradiction Hpne; reflexivity|].
   change (length (y :: p')) with (S (length p')).
-  rewrite fs_mkdirall_aux_S. rewrite Hst. cbv iota beta. simpl fi_kind. cbv iota.
-  rewrite (fs_mkdir_direct_missing s (y :: p') perm Hd Hlen Hne Hn). reflexivity.
+  destruct (removelast (comps (y :: p'))) as [|x init] eqn:Ei.
+  - rewrite (fs_mkdir_direct_missing s (y :: p') perm Hd Hlen Hne Hn). reflexivity.
+  - pose proof (abs_cleaned_nonempty _ (proj1 Hdp)) as Hkne.
+    destruct (kpath (x :: init)) as [|z q] eqn:Ek; [contradiction Hkne; reflexivity|].
+    rewrite fs_mkdirall_aux_S.
+    assert (Hlenp : length (comps (z :: q)) + 2 < walk_fuel).
+    { rewrite Ecp. pose proof (f_equal (@length str) (app_removelast_last [] Hne)) as El.
+      rewrite app_length in El. pose proof (f_equal (@length _) Ei) as El2.
+      unfold str in *. simpl in El, El2. simpl. lia. }
+    rewrite (fs_stat_direct s (z :: q) Hdp Hlenp);
+      [| intros m' t E; norm_keys; rewrite Ecp in E; rewrite Hm in E; discriminate E].
+    norm_keys. rewrite Ecp. rewrite Hm. cbv iota beta. simpl fi_kind. cbv iota.
+    rewrite (fs_mkdir_direct_missing s (y :: p') perm Hd Hlen Hne Hn). reflexivity.
 Qed.
 
 Lemma fs_mkdirall_direct_missing_eq : forall s p perm,
